@@ -1,14 +1,14 @@
 #!/bin/bash
 # usage: verify_seed.sh <Cxx> <a|b> [outdir=/tmp/seed/out]   - confirms a seeded change in the scratch worktree /tmp/seed/<Cxx>
 # prints one line: <id>/<x> apply=ok demo_clean=PASS demo_mut=FAIL baseline=ok
-ID=$1; X=$2; OUT=${3:-/tmp/seed/out}; WT=/tmp/seed/$ID; D=$OUT/$ID/$X
+ID=$1; X=$2; OUT=${3:-/tmp/seed/out}; BASE=${4:-/tmp/seed}; WT=$BASE/$ID; D=$OUT/$ID/$X
 cd $WT || exit 2
 git checkout -q -- . ; git clean -fdq
-run_demo() { (cd $WT && PYTHONPATH=$WT/src timeout 600 /venv/bin/python $D/demo.py >/tmp/seed/log.$ID.$X.$1 2>&1; echo $?); }
+run_demo() { (cd $WT && PYTHONPATH=$WT/src timeout 600 /venv/bin/python $D/demo.py >$BASE/log.$ID.$X.$1 2>&1; echo $?); }
 c=$(run_demo clean)
 if git apply --check $D/patch.diff 2>/dev/null; then git apply $D/patch.diff; ap=ok; else ap=FAIL; fi
 m=$(run_demo mut)
-sed -i 's/-n 16/-n 5/' /tmp/seed/baseline.sh 2>/dev/null
-if /tmp/seed/baseline.sh $WT >/tmp/seed/log.$ID.$X.base 2>&1; then b=ok; else b=FAIL; fi
+sed -i 's/-n 16/-n 5/' $BASE/baseline.sh 2>/dev/null
+if $BASE/baseline.sh $WT >$BASE/log.$ID.$X.base 2>&1; then b=ok; else b=FAIL; fi
 git checkout -q -- . ; git clean -fdq; find $WT -name __pycache__ -type d -prune -exec rm -rf {} + 2>/dev/null
 echo "$ID/$X apply=$ap demo_clean_rc=$c demo_mut_rc=$m baseline=$b"
